@@ -341,7 +341,7 @@ func (r *Runner) resolveCallExpression(ctx context.Context, expr *CallExpression
 		if convd == nil {
 			// 根据参数类型创建对应类型的零值
 			nilValue := reflect.Zero(targetType)
-			callArgs = append(callArgs, reflect.ValueOf(nilValue))
+			callArgs = append(callArgs, nilValue)
 		} else {
 			callArgs = append(callArgs, reflect.ValueOf(convd))
 		}
